@@ -25,10 +25,11 @@
 (* stop channel (capacity 1) and its own loop goroutine, but all instances  *)
 (* of a handler share ONE Router record (found by the NIC's link-local      *)
 (* address), so the configuration of the latest Start is what every         *)
-(* instance advertises.  Stop is a blocking send on the stop channel.       *)
+(* instance advertises.  Stop is a send on the stop channel.                *)
 (* Property level: (L1) after Stop returned the instance's loop ends and    *)
 (* writes nothing more; (L2) Stop never blocks, however often it is called  *)
-(* -- the code blocks for ever in the third Stop (KfStopBlocks); (L3) an     *)
+(* -- before commit 5a0211c the third Stop blocked for ever (KfStopBlocks,   *)
+(* constant StopNonBlocking = FALSE); (L3) an                                *)
 (* instance advertises its own configuration -- KfSharedRouterRecord;       *)
 (* (L4) Handler6.Close ends the servers -- the code leaves them running     *)
 (* (KfCloseLeavesServers); (L5) a router solicitation is answered -- the    *)
@@ -37,7 +38,9 @@
 (***************************************************************************)
 EXTENDS Naturals, Sequences, FiniteSets, TLC, Json
 
-CONSTANTS Part,          \* "vec" | "life"
+CONSTANTS StopNonBlocking, \* BOOLEAN: Stop is a non-blocking send (commit 5a0211c); FALSE = the code before that commit
+                           \* (known finding X06:StopBlocks open: the third Stop of an instance blocks for ever)
+          Part,          \* "vec" | "life"
           MaxPrefixes,   \* vec: longest prefix list
           MaxDepth,      \* life: calls per behaviour
           MaxInst,       \* life: Start calls per behaviour
@@ -87,7 +90,7 @@ SitesExact(c) == /\ ("KfFlagsIgnored" \in Sites(c)) <=> (c.managed \/ c.other)
 
 \* ------------------------------------------------------------------------ variables (both parts share them)
 VARIABLES vec,            \* vec: the configuration of this state
-          inst,           \* life: <<[cfg, loop ("running" | "ended"), buf (0 | 1)]>>, one per Start
+          inst,           \* life: <<[cfg, loop ("running" | "ended"), buf (0 | 1), stops (0..3)]>>, one per Start
           rc,             \* life: the handler's single Router record: configuration of the latest Start ("none" before)
           hclosed,        \* life: Handler6.Close was called
           out,            \* life: outcome of the last call
@@ -116,7 +119,7 @@ Step(call, o, sites) == /\ depth' = depth + 1
 \* startRADVS: the Router record is rewritten, a new loop starts and advertises at once
 Start(c) == /\ Len(inst) < MaxInst
             /\ rc' = c
-            /\ inst' = Append(inst, [cfg |-> c.id, loop |-> "running", buf |-> 0])
+            /\ inst' = Append(inst, [cfg |-> c.id, loop |-> "running", buf |-> 0, stops |-> 0])
             /\ Step([a |-> "start", x |-> c.id, i |-> Len(inst) + 1],
                     [res |-> "ok", ras |-> IF Outcome(c) = "sent" THEN <<c.id>> ELSE <<>>], {})
             /\ UNCHANGED <<vec, hclosed, dead>>
@@ -125,11 +128,15 @@ SendRA(i) == /\ i \in 1..Len(inst)
              /\ UNCHANGED <<vec, inst, rc, hclosed, dead>>
              /\ Step([a |-> "sendra", x |-> inst[i].cfg, i |-> i], [res |-> "ok", ras |-> Adv],
                      IF rc.id # inst[i].cfg /\ (Adv # <<>> \/ inst[i].cfg # "cE") THEN {"KfSharedRouterRecord"} ELSE {})
-\* Stop: blocking send on a channel of capacity 1 that only the running loop reads
+\* `stops` counts the Stop calls of an instance up to three, so that the view tells the third Stop from the second
+Bump(n) == IF n < 3 THEN n + 1 ELSE n
+\* Stop: send on a channel of capacity 1 that only the running loop reads; blocking before commit 5a0211c, non-blocking since
 Stop(i) == /\ i \in 1..Len(inst)
-           /\ CASE inst[i].loop = "running" -> /\ inst' = [inst EXCEPT ![i].loop = "ended"]
+           /\ CASE inst[i].loop = "running" -> /\ inst' = [inst EXCEPT ![i].loop = "ended", ![i].stops = Bump(@)]
                                                /\ Step([a |-> "stop", x |-> inst[i].cfg, i |-> i], [res |-> "ok", ras |-> <<>>], {}) /\ dead' = dead
-                [] inst[i].buf = 0          -> /\ inst' = [inst EXCEPT ![i].buf = 1]
+                [] inst[i].buf = 0          -> /\ inst' = [inst EXCEPT ![i].buf = 1, ![i].stops = Bump(@)]
+                                               /\ Step([a |-> "stop", x |-> inst[i].cfg, i |-> i], [res |-> "ok", ras |-> <<>>], {}) /\ dead' = dead
+                [] StopNonBlocking          -> /\ inst' = [inst EXCEPT ![i].stops = Bump(@)]                     \* a stop request is pending already: dropped
                                                /\ Step([a |-> "stop", x |-> inst[i].cfg, i |-> i], [res |-> "ok", ras |-> <<>>], {}) /\ dead' = dead
                 [] OTHER                    -> /\ inst' = inst
                                                /\ Step([a |-> "stop", x |-> inst[i].cfg, i |-> i], [res |-> "blocked", ras |-> <<>>], {"KfStopBlocks"}) /\ dead' = TRUE
@@ -161,6 +168,8 @@ VecExport == Part = "vec" => PrintT(ToJson([cfg |-> vec, outcome |-> Outcome(vec
 BufOnlyWhenEnded == \A i \in 1..Len(inst) : inst[i].buf = 1 => inst[i].loop = "ended"
 LatestWins == Len(inst) > 0 => rc.id = inst[Len(inst)].cfg
 \* property level (L1): Stop that returned leaves the instance without a loop
+\* property level (L2), an invariant iff StopNonBlocking
+StopNeverBlocks == StopNonBlocking => out.res # "blocked"
 StopEndsLoop == (Len(hist) > 0 /\ hist[Len(hist)].a = "stop" /\ out.res = "ok") => inst[hist[Len(hist)].i].loop = "ended"
 DepthOK == depth \in 0..MaxDepth
 ViewLast == <<inst, rc, hclosed, dead, IF Len(hist) = 0 THEN <<>> ELSE <<hist[Len(hist)].a, hist[Len(hist)].x, hist[Len(hist)].i>>>>
